@@ -19,14 +19,12 @@ const maxPayload = clientMaxLength - 64 // 8388544
 // limitDeltas: payload size = maxPayload + delta.
 var limitDeltas = []int{0, -1, -2, -3, -4, -5, +1}
 
-// fillPayload expands a seed into n content bytes that are neither a tcp.ping nor a tcp.pong.
+// fillPayload expands a seed into n content bytes that are not a message the transport keeps to itself.
 func fillPayload(seed uint64, n int) []byte {
 	p := make([]byte, n)
 	core.NewSplitMix(seed).Fill(p)
-	if n >= 4 && n <= 12 {
-		if m := binary.LittleEndian.Uint32(p); m == adnlsrv.MagicPong || m == adnlsrv.MagicPing {
-			p[0] ^= 0x55
-		}
+	if transportOwn(p, true) || transportOwn(p, false) {
+		p[0] ^= 0x55
 	}
 	return p
 }
